@@ -217,8 +217,8 @@ def startCtx (d : Dump) (t : Thread) : Option Nat :=
 /-- the `CallStack` built for one thread (before unloaded-module attribution) -/
 def stackOf (d : Dump) (t : Thread) : Stack :=
   if isDumpThread d t then
-    -- `CallStack::with_info(id, DumpThreadSkipped)`: no name, no frames
-    { id := t.id, name := none, info := .dumpThreadSkipped, frame0 := none, unloaded := [] }
+    -- `CallStack::with_info(id, DumpThreadSkipped)` + its name from the names stream: no frames
+    { id := t.id, name := nameOf d.names t.id, info := .dumpThreadSkipped, frame0 := none, unloaded := [] }
   else
     match startCtx d t with
     | some ip => { id := t.id, name := nameOf d.names t.id, info := .ok, frame0 := some ip, unloaded := [] }
